@@ -176,6 +176,10 @@ def build(engine, cfg, kind, flavour, std="c++17", extra_defs=()):
     cmd_tail = [cxx, "-std=" + std] + flags + COMMON
     key = hashlib.sha256((tree_hash() + _hash_files([src]) + header + " ".join(cmd_tail)).encode()).hexdigest()[:20]
     name = "%s-%s-%s-%s" % (engine, sanitize(cfg or "nocfg")[:60], kind or "nokind", std.replace("+", "p"))
+    if extra_defs:
+        name += "-" + sanitize("_".join(extra_defs))[:40]
+    if len(sanitize(cfg or "")) > 60:
+        name += "-" + hashlib.sha1((cfg or "").encode()).hexdigest()[:8]
     d = os.path.join(BUILD, flavour)
     os.makedirs(d, exist_ok=True)
     binp = os.path.join(d, name + "-" + key)
@@ -195,7 +199,7 @@ def build(engine, cfg, kind, flavour, std="c++17", extra_defs=()):
             hp = binp + ".cfg.hpp"
             with open(hp, "w") as f:
                 f.write(header)
-            tmp = binp + ".tmp%d" % os.getpid()
+            tmp = binp + ".tmp%d_%d" % (os.getpid(), threading.get_ident())
             cmd = cmd_tail + ["-include", hp, src, "-o", tmp, "-lpthread"]
             p = subprocess.run(cmd, stdout=subprocess.PIPE, stderr=subprocess.STDOUT, text=True)
             if p.returncode != 0:
